@@ -27,7 +27,7 @@ func ownFlags(d string) []string {
 		"col", "col.null", "col.def", "col.big", "enum", "enum.v3", "pk2",
 	}
 	if d == "postgres" {
-		return append(common, "arr.col", "arr", "e2", "serial", "bigserial", "ident", "ident2", "uqc", "idx.where", "idx.hash", "scmt", "scmt2", "enumcol.def")
+		return append(common, "arr.col", "arr", "e2", "serial", "bigserial", "ident", "ident2", "uqc", "idx.where", "idx.hash", "scmt", "scmt2", "enumcol.def", "enum.noschema", "enum.noobj")
 	}
 	return append(common, "engine", "tcs", "autoinc", "scs", "idx.prefix", "col.cs")
 }
@@ -90,11 +90,21 @@ func ownSchema(d, name, sfx string, f flagSet, empty bool) *schema.Schema {
 				vals = append(vals, "it's")
 			}
 			eStatus = &schema.EnumType{T: "e_status" + sfx, Values: vals, Schema: s}
-			s.AddObjects(eStatus)
+			if f["enum.noschema"] {
+				eStatus.Schema = nil // as built by schema.NewEnumColumn without schema.EnumSchema
+			}
+			if !f["enum.noobj"] {
+				s.AddObjects(eStatus)
+			}
 		}
 		if f["e2"] {
 			eKind = &schema.EnumType{T: "e_kind" + sfx, Values: []string{"k1", "k2"}, Schema: s}
-			s.AddObjects(eKind)
+			if f["enum.noschema"] {
+				eKind.Schema = nil
+			}
+			if !f["enum.noobj"] {
+				s.AddObjects(eKind)
+			}
 		}
 	}
 	// ---- t_a
@@ -307,12 +317,24 @@ func (u *universe) add(s *schema.Schema) {
 	u.Schemas[s.Name] = true
 	for _, o := range s.Objects {
 		if e, ok := o.(*schema.EnumType); ok {
-			u.Types[e.T] = s.Name
+			u.addType(e.T, e.Schema)
 		}
 	}
 	for _, t := range s.Tables {
 		u.addTable(t)
 	}
+}
+
+// addType records a named type and the schema it carries ("" = none, "*" = not the same everywhere).
+func (u *universe) addType(name string, s *schema.Schema) {
+	home := ""
+	if s != nil {
+		home = s.Name
+	}
+	if old, ok := u.Types[name]; ok && old != home {
+		home = "*"
+	}
+	u.Types[name] = home
 }
 
 func (u *universe) addTable(t *schema.Table) {
@@ -327,12 +349,15 @@ func (u *universe) addTable(t *schema.Table) {
 		if a, ok := ty.(*postgres.ArrayType); ok {
 			ty = a.Type
 		}
-		if e, ok := ty.(*schema.EnumType); ok && e.T != "enum" && e.T != "" {
-			es := sn
-			if e.Schema != nil {
-				es = e.Schema.Name
+		switch e := ty.(type) {
+		case *schema.EnumType:
+			if e.T != "enum" && e.T != "" {
+				u.addType(e.T, e.Schema)
 			}
-			u.Types[e.T] = es
+		case *postgres.DomainType:
+			u.addType(e.T, e.Schema)
+		case *postgres.CompositeType:
+			u.addType(e.T, e.Schema)
 		}
 	}
 	for _, i := range t.Indexes {
